@@ -39,8 +39,12 @@ def run_case(ck: Check, case: dict):
     if gd.kind == "mat":
         t = g.decode_states(t)  # (k, n, m) as the beam search passes them
     want = [sum(1 for a, b in zip(r, gd.central) if a != b) for r in rows]
-    for kind in ("hamming", "zero"):
+    t_before = t.clone()
+    for kind in ("hamming", "zero", "hamming"):  # scored repeatedly on the SAME tensor: the caller's states must not change
         st, out = algos.call(lambda: Predictor(g, kind)(t))
+        if st == "ok" and not torch.equal(t, t_before):
+            ck.violation(f"C19/{kind}/input-mutated", f"{kind} predictor modified the states tensor supplied by the caller", {"case": case, "predictor": kind})
+            return
         rep = {"case": case, "predictor": kind}
         if st != "ok":
             ck.violation(f"C19/{kind}/error/{gd.kind}", f"{kind} predictor raised: {out}", rep)
